@@ -128,6 +128,17 @@ def execFmt (io : FloatIO) (ctx ve : Sexp) : String :=
              -- the value's own type accepts the value and nothing that is formatted below it (the parameters of a Type are
              -- an Array, their elements fall under the container formats)
              | .ok f => resStr (formatX kindKeys io [(v.kind.key, .mk f none)] v))
+      | .list [.atom "new", d] =>
+        -- px.New(c, String, v, directive): newFormatContext3 with a String format = NewFormatContext(v.PType(), NewFormat(directive))
+        (match d.str? with
+         | none => "bad-op"
+         | some d =>
+           if v.isContainer || v.kind == .talias || v.kind == .otype then "out-of-model"   -- which children the value's own type accepts is a lattice question
+           else match newFormat d.toList with
+             | .error c => "reported " ++ codeStr c
+             -- the value's own type accepts the value and nothing that is formatted below it (the parameters of a Type are
+             -- an Array, their elements fall under the container formats)
+             | .ok f => resStr (formatX kindKeys io [(v.kind.key, .mk f none)] v))
       | .list (.atom "map" :: es) =>
         (match mapOf es with
          | .bad => "bad-op"
